@@ -375,6 +375,9 @@ type build struct {
 
 var txCounter int
 
+// lateInput: newBuild puts the tested input at position >= 1 with a non-zero sequence number
+var lateInput bool
+
 func newBuild(r *common.Rand, kind string, flags uint32, nkeys int) *build {
 	b := &build{kind: kind, r: r, flags: flags, other: sp.NewKey(r)}
 	for i := 0; i < nkeys; i++ {
@@ -384,11 +387,17 @@ func newBuild(r *common.Rand, kind string, flags uint32, nkeys int) *build {
 	txCounter++
 	nin, nout := 1+txCounter%3, (txCounter/3)%4
 	b.idx = (txCounter / 12) % nin
+	if lateInput { // the tested input is not the first and has a non-zero, non-final sequence number
+		nin = 2 + txCounter%2
+		b.idx = 1 + txCounter%(nin-1)
+	}
 	b.spec = txgen.TxSpec{Version: uint32(1 + txCounter%2), Lock: uint32(r.Intn(3)) * 499999999}
 	for i := 0; i < nin; i++ {
 		in := txgen.InSpec{Txid: common.Hex(r.Bytes(32)), Vout: uint32(r.Intn(4)), Seq: []uint32{0xffffffff, 0xfffffffe, 0, 5}[r.Intn(4)], PrevNil: true}
 		if i != b.idx {
 			in.Unlock = common.Hex(r.Bytes(r.Intn(3)))
+		} else if lateInput {
+			in.Seq = []uint32{0xfffffffe, 5, 0xffffffff}[txCounter%3]
 		}
 		b.spec.Ins = append(b.spec.Ins, in)
 	}
@@ -797,6 +806,26 @@ func checksigCase(r *common.Rand, kind string, flags uint32, ht byte, q sigReq, 
 }
 
 func familyCheckSig(r *common.Rand) {
+	// every defined hash type, conforming signature, tested input at position >= 1 with sequence fffffffe / 5 /
+	// ffffffff, 0..3 outputs (NONE / SINGLE / ANYONECANPAY digests treat the other inputs, their sequence numbers
+	// and the outputs around the tested index differently)
+	lateInput = true
+	for round := 0; round < 6; round++ {
+		for _, ht := range append(append([]byte{}, legacyTypes...), forkTypes...) {
+			flags := uint32(0)
+			if ht&0x40 != 0 {
+				flags = sp.FForkID
+			}
+			if round%2 == 1 {
+				flags |= sp.FGenesis
+			}
+			if round >= 4 {
+				flags |= sp.FStrictEnc | sp.FDERSig | sp.FLowS | sp.FNullFail
+			}
+			checksigCase(r, "checksig-late-input", flags, ht, sigReq{Signer: 0}, round%2, round%3 == 0)
+		}
+	}
+	lateInput = false
 	n := 0
 	for era := 0; era < 2; era++ {
 		for sub := 0; sub < 64; sub++ {
